@@ -79,6 +79,7 @@ inductive Item
   | allowed (v : Str)
   | channelGroup (n : Nat) (rest : List Str)
   | other (ws : List Str)
+deriving DecidableEq
 
 def Item.words : Item → List Str
   | .descr ws => kDescription :: ws
@@ -913,5 +914,393 @@ theorem nativeVlan_stanza (st : Stanza d others kids) (hdr : Str) :
   rw [nativeVlanLoop_render _ kids st.valid, findSome_perm specNative st.perm _ (items_native st.unrelated)]
   rfl
 
+
+/-- a word accepted by `[^\d]\S+`: at least two characters, the first no digit -/
+def IntfWord (i : Str) : Prop := Word i ∧ ∃ c c2 r, i = c :: c2 :: r ∧ isDigit c = false
+/-- a whole-word dotted quad (`\d+\.\d+\.\d+\.\d+`) -/
+def QuadWord (q : Str) : Prop :=
+  Word q ∧ quadPrefix q = some (q, true) ∧ ∃ c c2 r, q = c :: c2 :: r ∧ isDigit c = true
+
+theorem dropWhile_all {α : Type} (p : α → Bool) (l : List α) (h : ∀ x ∈ l, p x = true) : l.dropWhile p = [] := by
+  induction l with
+  | nil => rfl
+  | cons x xs ih => simp [List.dropWhile, h x (by simp), ih (fun y hy => h y (by simp [hy]))]
+
+theorem quadPrefix_toDec (n : Nat) : quadPrefix (toDec n) = none := by
+  unfold quadPrefix
+  simp [dropWhile_all _ _ (Range.toDec_digits n)]
+
+theorem kw_not_prefix_toDec (kw : Str) (n : Nat) (h : (match kw with | c :: _ => !isDigit c | [] => false) = true) :
+    kw.isPrefixOf (toDec n) = false := by
+  cases kw with
+  | nil => cases h
+  | cons c r =>
+    cases hd : toDec n with
+    | nil => exact absurd hd (Range.toDec_ne_nil n)
+    | cons x xs =>
+      have hx : isDigit x = true := Range.toDec_digits n x (by simp [hd])
+      have : c ≠ x := fun e => by subst e; simp [hx] at h
+      simp [List.isPrefixOf, this]
+
+/-- a structured static route -/
+structure RouteDesc where
+  vrf : Option Str
+  pfx : Str
+  mask : Str
+  intf : Option Str
+  nh : Option Str
+  glob : Bool
+  ad : Option Nat
+  name : Option Str
+  permanent : Bool
+  track : Option Nat
+  tag : Option Nat
+
+def optWords (kw : Str) (o : Option Str) : List Str :=
+  match o with | some v => [kw, v] | none => []
+
+def RouteDesc.words (d : RouteDesc) : List Str :=
+  [kIp, kRoute] ++ optWords kVrf d.vrf ++ [d.pfx, d.mask] ++ d.intf.toList ++ d.nh.toList ++
+  (if d.glob then [kGlobal] else []) ++ (d.ad.map toDec).toList ++ optWords kName d.name ++
+  (if d.permanent then [kPermanent] else []) ++ optWords kTrack (d.track.map toDec) ++
+  optWords kTag (d.tag.map toDec)
+
+def RouteDesc.Valid (d : RouteDesc) : Prop :=
+  (∀ v, d.vrf = some v → Word v) ∧ Word d.pfx ∧ isQuadShape d.pfx = true ∧ QuadWord d.mask ∧
+  (∀ i, d.intf = some i → IntfWord i) ∧ (∀ h, d.nh = some h → QuadWord h) ∧
+  (∀ n, d.name = some n → Word n) ∧ (d.permanent = false ∨ d.track = none)
+
+def RouteDesc.expected (d : RouteDesc) : Route :=
+  { vrf := d.vrf, prefix_ := d.pfx, netmask := d.mask, nhIntf := d.intf, nhAddr := d.nh, dhcp := none,
+    glob := if d.glob then some kGlobal else none, ad := d.ad.map toDec, mcast := none, name := d.name,
+    perm := if d.permanent then some kPermanent else none, track := d.track.map toDec, tag := d.tag.map toDec }
+
+theorem qp_global : quadPrefix kGlobal = none := by decide
+theorem qp_name : quadPrefix kName = none := by decide
+theorem qp_permanent : quadPrefix kPermanent = none := by decide
+theorem qp_track : quadPrefix kTrack = none := by decide
+theorem qp_tag : quadPrefix kTag = none := by decide
+
+theorem wk (k : Str) (h : (!k.isEmpty && k.all (fun c => !isSpace c)) = true) : Word k := word_kw h
+
+
+theorem route_both_00 (v p m i h : Str) (ad : Option Nat) (name : Option Str) (perm : Bool) (track tag : Option Nat)
+    (hv : RouteDesc.Valid ⟨none, p, m, some i, some h, false, ad, name, perm, track, tag⟩) :
+    routeParse (line [] (RouteDesc.words ⟨none, p, m, some i, some h, false, ad, name, perm, track, tag⟩)) =
+      some (RouteDesc.expected ⟨none, p, m, some i, some h, false, ad, name, perm, track, tag⟩) := by
+  obtain ⟨hvrf, hp, hps, ⟨hmw, hmq, _⟩, hintf, hnh, hname, hpt⟩ := hv
+  simp only at hvrf hp hps hmw hmq hintf hnh hname hpt
+  have k1 := wk kIp (by decide); have k2 := wk kRoute (by decide); have k3 := wk kVrf (by decide)
+  have k4 := wk kGlobal (by decide); have k5 := wk kName (by decide); have k6 := wk kPermanent (by decide)
+  have k7 := wk kTrack (by decide); have k8 := wk kTag (by decide)
+  have hpv : p ≠ kVrf := by intro e; subst e; revert hps; decide
+  obtain ⟨hiw, c, c2, r, rfl, hc⟩ := hintf _ rfl
+  obtain ⟨hhw, hhq, _⟩ := hnh _ rfl
+  unfold routeParse
+  cases ad <;> cases name <;> cases perm <;> cases track <;> cases tag <;>
+    (try (rcases hpt with hpt | hpt <;> cases hpt)) <;>
+    (rw [lex_line [] _ (by simp) (by
+      simp only [RouteDesc.words, optWords, List.forall_mem_cons, List.not_mem_nil, false_imp_iff, implies_true, and_true,
+        List.cons_append, List.nil_append, Option.toList, Option.map, if_true, if_false, List.append_nil, Bool.false_eq_true]
+      simp [*, word_toDec])]) <;>
+    simp (config := {decide := true}) [RouteDesc.words, RouteDesc.expected, optWords, toksOf, routeBody, routeTail, *,
+      slotIntf, slotAddr, slotKw, slotDigits, slotKwWord, slotKwDigits, quadPrefix_toDec, takeWhile_toDec,
+      Range.toDec_ne_nil, kw_not_prefix_toDec, qp_global, qp_name, qp_permanent, qp_track, qp_tag]
+
+theorem route_both_01 (v p m i h : Str) (ad : Option Nat) (name : Option Str) (perm : Bool) (track tag : Option Nat)
+    (hv : RouteDesc.Valid ⟨none, p, m, some i, some h, true, ad, name, perm, track, tag⟩) :
+    routeParse (line [] (RouteDesc.words ⟨none, p, m, some i, some h, true, ad, name, perm, track, tag⟩)) =
+      some (RouteDesc.expected ⟨none, p, m, some i, some h, true, ad, name, perm, track, tag⟩) := by
+  obtain ⟨hvrf, hp, hps, ⟨hmw, hmq, _⟩, hintf, hnh, hname, hpt⟩ := hv
+  simp only at hvrf hp hps hmw hmq hintf hnh hname hpt
+  have k1 := wk kIp (by decide); have k2 := wk kRoute (by decide); have k3 := wk kVrf (by decide)
+  have k4 := wk kGlobal (by decide); have k5 := wk kName (by decide); have k6 := wk kPermanent (by decide)
+  have k7 := wk kTrack (by decide); have k8 := wk kTag (by decide)
+  have hpv : p ≠ kVrf := by intro e; subst e; revert hps; decide
+  obtain ⟨hiw, c, c2, r, rfl, hc⟩ := hintf _ rfl
+  obtain ⟨hhw, hhq, _⟩ := hnh _ rfl
+  unfold routeParse
+  cases ad <;> cases name <;> cases perm <;> cases track <;> cases tag <;>
+    (try (rcases hpt with hpt | hpt <;> cases hpt)) <;>
+    (rw [lex_line [] _ (by simp) (by
+      simp only [RouteDesc.words, optWords, List.forall_mem_cons, List.not_mem_nil, false_imp_iff, implies_true, and_true,
+        List.cons_append, List.nil_append, Option.toList, Option.map, if_true, if_false, List.append_nil, Bool.false_eq_true]
+      simp [*, word_toDec])]) <;>
+    simp (config := {decide := true}) [RouteDesc.words, RouteDesc.expected, optWords, toksOf, routeBody, routeTail, *,
+      slotIntf, slotAddr, slotKw, slotDigits, slotKwWord, slotKwDigits, quadPrefix_toDec, takeWhile_toDec,
+      Range.toDec_ne_nil, kw_not_prefix_toDec, qp_global, qp_name, qp_permanent, qp_track, qp_tag]
+
+theorem route_both_10 (v p m i h : Str) (ad : Option Nat) (name : Option Str) (perm : Bool) (track tag : Option Nat)
+    (hv : RouteDesc.Valid ⟨some v, p, m, some i, some h, false, ad, name, perm, track, tag⟩) :
+    routeParse (line [] (RouteDesc.words ⟨some v, p, m, some i, some h, false, ad, name, perm, track, tag⟩)) =
+      some (RouteDesc.expected ⟨some v, p, m, some i, some h, false, ad, name, perm, track, tag⟩) := by
+  obtain ⟨hvrf, hp, hps, ⟨hmw, hmq, _⟩, hintf, hnh, hname, hpt⟩ := hv
+  simp only at hvrf hp hps hmw hmq hintf hnh hname hpt
+  have k1 := wk kIp (by decide); have k2 := wk kRoute (by decide); have k3 := wk kVrf (by decide)
+  have k4 := wk kGlobal (by decide); have k5 := wk kName (by decide); have k6 := wk kPermanent (by decide)
+  have k7 := wk kTrack (by decide); have k8 := wk kTag (by decide)
+  have hpv : p ≠ kVrf := by intro e; subst e; revert hps; decide
+  obtain ⟨hiw, c, c2, r, rfl, hc⟩ := hintf _ rfl
+  obtain ⟨hhw, hhq, _⟩ := hnh _ rfl
+  unfold routeParse
+  cases ad <;> cases name <;> cases perm <;> cases track <;> cases tag <;>
+    (try (rcases hpt with hpt | hpt <;> cases hpt)) <;>
+    (rw [lex_line [] _ (by simp) (by
+      simp only [RouteDesc.words, optWords, List.forall_mem_cons, List.not_mem_nil, false_imp_iff, implies_true, and_true,
+        List.cons_append, List.nil_append, Option.toList, Option.map, if_true, if_false, List.append_nil, Bool.false_eq_true]
+      simp [*, word_toDec])]) <;>
+    simp (config := {decide := true}) [RouteDesc.words, RouteDesc.expected, optWords, toksOf, routeBody, routeTail, *,
+      slotIntf, slotAddr, slotKw, slotDigits, slotKwWord, slotKwDigits, quadPrefix_toDec, takeWhile_toDec,
+      Range.toDec_ne_nil, kw_not_prefix_toDec, qp_global, qp_name, qp_permanent, qp_track, qp_tag]
+
+theorem route_both_11 (v p m i h : Str) (ad : Option Nat) (name : Option Str) (perm : Bool) (track tag : Option Nat)
+    (hv : RouteDesc.Valid ⟨some v, p, m, some i, some h, true, ad, name, perm, track, tag⟩) :
+    routeParse (line [] (RouteDesc.words ⟨some v, p, m, some i, some h, true, ad, name, perm, track, tag⟩)) =
+      some (RouteDesc.expected ⟨some v, p, m, some i, some h, true, ad, name, perm, track, tag⟩) := by
+  obtain ⟨hvrf, hp, hps, ⟨hmw, hmq, _⟩, hintf, hnh, hname, hpt⟩ := hv
+  simp only at hvrf hp hps hmw hmq hintf hnh hname hpt
+  have k1 := wk kIp (by decide); have k2 := wk kRoute (by decide); have k3 := wk kVrf (by decide)
+  have k4 := wk kGlobal (by decide); have k5 := wk kName (by decide); have k6 := wk kPermanent (by decide)
+  have k7 := wk kTrack (by decide); have k8 := wk kTag (by decide)
+  have hpv : p ≠ kVrf := by intro e; subst e; revert hps; decide
+  obtain ⟨hiw, c, c2, r, rfl, hc⟩ := hintf _ rfl
+  obtain ⟨hhw, hhq, _⟩ := hnh _ rfl
+  unfold routeParse
+  cases ad <;> cases name <;> cases perm <;> cases track <;> cases tag <;>
+    (try (rcases hpt with hpt | hpt <;> cases hpt)) <;>
+    (rw [lex_line [] _ (by simp) (by
+      simp only [RouteDesc.words, optWords, List.forall_mem_cons, List.not_mem_nil, false_imp_iff, implies_true, and_true,
+        List.cons_append, List.nil_append, Option.toList, Option.map, if_true, if_false, List.append_nil, Bool.false_eq_true]
+      simp [*, word_toDec])]) <;>
+    simp (config := {decide := true}) [RouteDesc.words, RouteDesc.expected, optWords, toksOf, routeBody, routeTail, *,
+      slotIntf, slotAddr, slotKw, slotDigits, slotKwWord, slotKwDigits, quadPrefix_toDec, takeWhile_toDec,
+      Range.toDec_ne_nil, kw_not_prefix_toDec, qp_global, qp_name, qp_permanent, qp_track, qp_tag]
+
+theorem route_intf_00 (v p m i h : Str) (ad : Option Nat) (name : Option Str) (perm : Bool) (track tag : Option Nat)
+    (hv : RouteDesc.Valid ⟨none, p, m, some i, none, false, ad, name, perm, track, tag⟩) :
+    routeParse (line [] (RouteDesc.words ⟨none, p, m, some i, none, false, ad, name, perm, track, tag⟩)) =
+      some (RouteDesc.expected ⟨none, p, m, some i, none, false, ad, name, perm, track, tag⟩) := by
+  obtain ⟨hvrf, hp, hps, ⟨hmw, hmq, _⟩, hintf, hnh, hname, hpt⟩ := hv
+  simp only at hvrf hp hps hmw hmq hintf hnh hname hpt
+  have k1 := wk kIp (by decide); have k2 := wk kRoute (by decide); have k3 := wk kVrf (by decide)
+  have k4 := wk kGlobal (by decide); have k5 := wk kName (by decide); have k6 := wk kPermanent (by decide)
+  have k7 := wk kTrack (by decide); have k8 := wk kTag (by decide)
+  have hpv : p ≠ kVrf := by intro e; subst e; revert hps; decide
+  obtain ⟨hiw, c, c2, r, rfl, hc⟩ := hintf _ rfl
+  unfold routeParse
+  cases ad <;> cases name <;> cases perm <;> cases track <;> cases tag <;>
+    (try (rcases hpt with hpt | hpt <;> cases hpt)) <;>
+    (rw [lex_line [] _ (by simp) (by
+      simp only [RouteDesc.words, optWords, List.forall_mem_cons, List.not_mem_nil, false_imp_iff, implies_true, and_true,
+        List.cons_append, List.nil_append, Option.toList, Option.map, if_true, if_false, List.append_nil, Bool.false_eq_true]
+      simp [*, word_toDec])]) <;>
+    simp (config := {decide := true}) [RouteDesc.words, RouteDesc.expected, optWords, toksOf, routeBody, routeTail, *,
+      slotIntf, slotAddr, slotKw, slotDigits, slotKwWord, slotKwDigits, quadPrefix_toDec, takeWhile_toDec,
+      Range.toDec_ne_nil, kw_not_prefix_toDec, qp_global, qp_name, qp_permanent, qp_track, qp_tag]
+
+theorem route_intf_01 (v p m i h : Str) (ad : Option Nat) (name : Option Str) (perm : Bool) (track tag : Option Nat)
+    (hv : RouteDesc.Valid ⟨none, p, m, some i, none, true, ad, name, perm, track, tag⟩) :
+    routeParse (line [] (RouteDesc.words ⟨none, p, m, some i, none, true, ad, name, perm, track, tag⟩)) =
+      some (RouteDesc.expected ⟨none, p, m, some i, none, true, ad, name, perm, track, tag⟩) := by
+  obtain ⟨hvrf, hp, hps, ⟨hmw, hmq, _⟩, hintf, hnh, hname, hpt⟩ := hv
+  simp only at hvrf hp hps hmw hmq hintf hnh hname hpt
+  have k1 := wk kIp (by decide); have k2 := wk kRoute (by decide); have k3 := wk kVrf (by decide)
+  have k4 := wk kGlobal (by decide); have k5 := wk kName (by decide); have k6 := wk kPermanent (by decide)
+  have k7 := wk kTrack (by decide); have k8 := wk kTag (by decide)
+  have hpv : p ≠ kVrf := by intro e; subst e; revert hps; decide
+  obtain ⟨hiw, c, c2, r, rfl, hc⟩ := hintf _ rfl
+  unfold routeParse
+  cases ad <;> cases name <;> cases perm <;> cases track <;> cases tag <;>
+    (try (rcases hpt with hpt | hpt <;> cases hpt)) <;>
+    (rw [lex_line [] _ (by simp) (by
+      simp only [RouteDesc.words, optWords, List.forall_mem_cons, List.not_mem_nil, false_imp_iff, implies_true, and_true,
+        List.cons_append, List.nil_append, Option.toList, Option.map, if_true, if_false, List.append_nil, Bool.false_eq_true]
+      simp [*, word_toDec])]) <;>
+    simp (config := {decide := true}) [RouteDesc.words, RouteDesc.expected, optWords, toksOf, routeBody, routeTail, *,
+      slotIntf, slotAddr, slotKw, slotDigits, slotKwWord, slotKwDigits, quadPrefix_toDec, takeWhile_toDec,
+      Range.toDec_ne_nil, kw_not_prefix_toDec, qp_global, qp_name, qp_permanent, qp_track, qp_tag]
+
+theorem route_intf_10 (v p m i h : Str) (ad : Option Nat) (name : Option Str) (perm : Bool) (track tag : Option Nat)
+    (hv : RouteDesc.Valid ⟨some v, p, m, some i, none, false, ad, name, perm, track, tag⟩) :
+    routeParse (line [] (RouteDesc.words ⟨some v, p, m, some i, none, false, ad, name, perm, track, tag⟩)) =
+      some (RouteDesc.expected ⟨some v, p, m, some i, none, false, ad, name, perm, track, tag⟩) := by
+  obtain ⟨hvrf, hp, hps, ⟨hmw, hmq, _⟩, hintf, hnh, hname, hpt⟩ := hv
+  simp only at hvrf hp hps hmw hmq hintf hnh hname hpt
+  have k1 := wk kIp (by decide); have k2 := wk kRoute (by decide); have k3 := wk kVrf (by decide)
+  have k4 := wk kGlobal (by decide); have k5 := wk kName (by decide); have k6 := wk kPermanent (by decide)
+  have k7 := wk kTrack (by decide); have k8 := wk kTag (by decide)
+  have hpv : p ≠ kVrf := by intro e; subst e; revert hps; decide
+  obtain ⟨hiw, c, c2, r, rfl, hc⟩ := hintf _ rfl
+  unfold routeParse
+  cases ad <;> cases name <;> cases perm <;> cases track <;> cases tag <;>
+    (try (rcases hpt with hpt | hpt <;> cases hpt)) <;>
+    (rw [lex_line [] _ (by simp) (by
+      simp only [RouteDesc.words, optWords, List.forall_mem_cons, List.not_mem_nil, false_imp_iff, implies_true, and_true,
+        List.cons_append, List.nil_append, Option.toList, Option.map, if_true, if_false, List.append_nil, Bool.false_eq_true]
+      simp [*, word_toDec])]) <;>
+    simp (config := {decide := true}) [RouteDesc.words, RouteDesc.expected, optWords, toksOf, routeBody, routeTail, *,
+      slotIntf, slotAddr, slotKw, slotDigits, slotKwWord, slotKwDigits, quadPrefix_toDec, takeWhile_toDec,
+      Range.toDec_ne_nil, kw_not_prefix_toDec, qp_global, qp_name, qp_permanent, qp_track, qp_tag]
+
+theorem route_intf_11 (v p m i h : Str) (ad : Option Nat) (name : Option Str) (perm : Bool) (track tag : Option Nat)
+    (hv : RouteDesc.Valid ⟨some v, p, m, some i, none, true, ad, name, perm, track, tag⟩) :
+    routeParse (line [] (RouteDesc.words ⟨some v, p, m, some i, none, true, ad, name, perm, track, tag⟩)) =
+      some (RouteDesc.expected ⟨some v, p, m, some i, none, true, ad, name, perm, track, tag⟩) := by
+  obtain ⟨hvrf, hp, hps, ⟨hmw, hmq, _⟩, hintf, hnh, hname, hpt⟩ := hv
+  simp only at hvrf hp hps hmw hmq hintf hnh hname hpt
+  have k1 := wk kIp (by decide); have k2 := wk kRoute (by decide); have k3 := wk kVrf (by decide)
+  have k4 := wk kGlobal (by decide); have k5 := wk kName (by decide); have k6 := wk kPermanent (by decide)
+  have k7 := wk kTrack (by decide); have k8 := wk kTag (by decide)
+  have hpv : p ≠ kVrf := by intro e; subst e; revert hps; decide
+  obtain ⟨hiw, c, c2, r, rfl, hc⟩ := hintf _ rfl
+  unfold routeParse
+  cases ad <;> cases name <;> cases perm <;> cases track <;> cases tag <;>
+    (try (rcases hpt with hpt | hpt <;> cases hpt)) <;>
+    (rw [lex_line [] _ (by simp) (by
+      simp only [RouteDesc.words, optWords, List.forall_mem_cons, List.not_mem_nil, false_imp_iff, implies_true, and_true,
+        List.cons_append, List.nil_append, Option.toList, Option.map, if_true, if_false, List.append_nil, Bool.false_eq_true]
+      simp [*, word_toDec])]) <;>
+    simp (config := {decide := true}) [RouteDesc.words, RouteDesc.expected, optWords, toksOf, routeBody, routeTail, *,
+      slotIntf, slotAddr, slotKw, slotDigits, slotKwWord, slotKwDigits, quadPrefix_toDec, takeWhile_toDec,
+      Range.toDec_ne_nil, kw_not_prefix_toDec, qp_global, qp_name, qp_permanent, qp_track, qp_tag]
+
+theorem route_nh_00 (v p m i h : Str) (ad : Option Nat) (name : Option Str) (perm : Bool) (track tag : Option Nat)
+    (hv : RouteDesc.Valid ⟨none, p, m, none, some h, false, ad, name, perm, track, tag⟩) :
+    routeParse (line [] (RouteDesc.words ⟨none, p, m, none, some h, false, ad, name, perm, track, tag⟩)) =
+      some (RouteDesc.expected ⟨none, p, m, none, some h, false, ad, name, perm, track, tag⟩) := by
+  obtain ⟨hvrf, hp, hps, ⟨hmw, hmq, _⟩, hintf, hnh, hname, hpt⟩ := hv
+  simp only at hvrf hp hps hmw hmq hintf hnh hname hpt
+  have k1 := wk kIp (by decide); have k2 := wk kRoute (by decide); have k3 := wk kVrf (by decide)
+  have k4 := wk kGlobal (by decide); have k5 := wk kName (by decide); have k6 := wk kPermanent (by decide)
+  have k7 := wk kTrack (by decide); have k8 := wk kTag (by decide)
+  have hpv : p ≠ kVrf := by intro e; subst e; revert hps; decide
+  obtain ⟨hhw, hhq, d1, d2, dr, rfl, hd1⟩ := hnh _ rfl
+  unfold routeParse
+  cases ad <;> cases name <;> cases perm <;> cases track <;> cases tag <;>
+    (try (rcases hpt with hpt | hpt <;> cases hpt)) <;>
+    (rw [lex_line [] _ (by simp) (by
+      simp only [RouteDesc.words, optWords, List.forall_mem_cons, List.not_mem_nil, false_imp_iff, implies_true, and_true,
+        List.cons_append, List.nil_append, Option.toList, Option.map, if_true, if_false, List.append_nil, Bool.false_eq_true]
+      simp [*, word_toDec])]) <;>
+    simp (config := {decide := true}) [RouteDesc.words, RouteDesc.expected, optWords, toksOf, routeBody, routeTail, *,
+      slotIntf, slotAddr, slotKw, slotDigits, slotKwWord, slotKwDigits, quadPrefix_toDec, takeWhile_toDec,
+      Range.toDec_ne_nil, kw_not_prefix_toDec, qp_global, qp_name, qp_permanent, qp_track, qp_tag]
+
+theorem route_nh_01 (v p m i h : Str) (ad : Option Nat) (name : Option Str) (perm : Bool) (track tag : Option Nat)
+    (hv : RouteDesc.Valid ⟨none, p, m, none, some h, true, ad, name, perm, track, tag⟩) :
+    routeParse (line [] (RouteDesc.words ⟨none, p, m, none, some h, true, ad, name, perm, track, tag⟩)) =
+      some (RouteDesc.expected ⟨none, p, m, none, some h, true, ad, name, perm, track, tag⟩) := by
+  obtain ⟨hvrf, hp, hps, ⟨hmw, hmq, _⟩, hintf, hnh, hname, hpt⟩ := hv
+  simp only at hvrf hp hps hmw hmq hintf hnh hname hpt
+  have k1 := wk kIp (by decide); have k2 := wk kRoute (by decide); have k3 := wk kVrf (by decide)
+  have k4 := wk kGlobal (by decide); have k5 := wk kName (by decide); have k6 := wk kPermanent (by decide)
+  have k7 := wk kTrack (by decide); have k8 := wk kTag (by decide)
+  have hpv : p ≠ kVrf := by intro e; subst e; revert hps; decide
+  obtain ⟨hhw, hhq, d1, d2, dr, rfl, hd1⟩ := hnh _ rfl
+  unfold routeParse
+  cases ad <;> cases name <;> cases perm <;> cases track <;> cases tag <;>
+    (try (rcases hpt with hpt | hpt <;> cases hpt)) <;>
+    (rw [lex_line [] _ (by simp) (by
+      simp only [RouteDesc.words, optWords, List.forall_mem_cons, List.not_mem_nil, false_imp_iff, implies_true, and_true,
+        List.cons_append, List.nil_append, Option.toList, Option.map, if_true, if_false, List.append_nil, Bool.false_eq_true]
+      simp [*, word_toDec])]) <;>
+    simp (config := {decide := true}) [RouteDesc.words, RouteDesc.expected, optWords, toksOf, routeBody, routeTail, *,
+      slotIntf, slotAddr, slotKw, slotDigits, slotKwWord, slotKwDigits, quadPrefix_toDec, takeWhile_toDec,
+      Range.toDec_ne_nil, kw_not_prefix_toDec, qp_global, qp_name, qp_permanent, qp_track, qp_tag]
+
+theorem route_nh_10 (v p m i h : Str) (ad : Option Nat) (name : Option Str) (perm : Bool) (track tag : Option Nat)
+    (hv : RouteDesc.Valid ⟨some v, p, m, none, some h, false, ad, name, perm, track, tag⟩) :
+    routeParse (line [] (RouteDesc.words ⟨some v, p, m, none, some h, false, ad, name, perm, track, tag⟩)) =
+      some (RouteDesc.expected ⟨some v, p, m, none, some h, false, ad, name, perm, track, tag⟩) := by
+  obtain ⟨hvrf, hp, hps, ⟨hmw, hmq, _⟩, hintf, hnh, hname, hpt⟩ := hv
+  simp only at hvrf hp hps hmw hmq hintf hnh hname hpt
+  have k1 := wk kIp (by decide); have k2 := wk kRoute (by decide); have k3 := wk kVrf (by decide)
+  have k4 := wk kGlobal (by decide); have k5 := wk kName (by decide); have k6 := wk kPermanent (by decide)
+  have k7 := wk kTrack (by decide); have k8 := wk kTag (by decide)
+  have hpv : p ≠ kVrf := by intro e; subst e; revert hps; decide
+  obtain ⟨hhw, hhq, d1, d2, dr, rfl, hd1⟩ := hnh _ rfl
+  unfold routeParse
+  cases ad <;> cases name <;> cases perm <;> cases track <;> cases tag <;>
+    (try (rcases hpt with hpt | hpt <;> cases hpt)) <;>
+    (rw [lex_line [] _ (by simp) (by
+      simp only [RouteDesc.words, optWords, List.forall_mem_cons, List.not_mem_nil, false_imp_iff, implies_true, and_true,
+        List.cons_append, List.nil_append, Option.toList, Option.map, if_true, if_false, List.append_nil, Bool.false_eq_true]
+      simp [*, word_toDec])]) <;>
+    simp (config := {decide := true}) [RouteDesc.words, RouteDesc.expected, optWords, toksOf, routeBody, routeTail, *,
+      slotIntf, slotAddr, slotKw, slotDigits, slotKwWord, slotKwDigits, quadPrefix_toDec, takeWhile_toDec,
+      Range.toDec_ne_nil, kw_not_prefix_toDec, qp_global, qp_name, qp_permanent, qp_track, qp_tag]
+
+theorem route_nh_11 (v p m i h : Str) (ad : Option Nat) (name : Option Str) (perm : Bool) (track tag : Option Nat)
+    (hv : RouteDesc.Valid ⟨some v, p, m, none, some h, true, ad, name, perm, track, tag⟩) :
+    routeParse (line [] (RouteDesc.words ⟨some v, p, m, none, some h, true, ad, name, perm, track, tag⟩)) =
+      some (RouteDesc.expected ⟨some v, p, m, none, some h, true, ad, name, perm, track, tag⟩) := by
+  obtain ⟨hvrf, hp, hps, ⟨hmw, hmq, _⟩, hintf, hnh, hname, hpt⟩ := hv
+  simp only at hvrf hp hps hmw hmq hintf hnh hname hpt
+  have k1 := wk kIp (by decide); have k2 := wk kRoute (by decide); have k3 := wk kVrf (by decide)
+  have k4 := wk kGlobal (by decide); have k5 := wk kName (by decide); have k6 := wk kPermanent (by decide)
+  have k7 := wk kTrack (by decide); have k8 := wk kTag (by decide)
+  have hpv : p ≠ kVrf := by intro e; subst e; revert hps; decide
+  obtain ⟨hhw, hhq, d1, d2, dr, rfl, hd1⟩ := hnh _ rfl
+  unfold routeParse
+  cases ad <;> cases name <;> cases perm <;> cases track <;> cases tag <;>
+    (try (rcases hpt with hpt | hpt <;> cases hpt)) <;>
+    (rw [lex_line [] _ (by simp) (by
+      simp only [RouteDesc.words, optWords, List.forall_mem_cons, List.not_mem_nil, false_imp_iff, implies_true, and_true,
+        List.cons_append, List.nil_append, Option.toList, Option.map, if_true, if_false, List.append_nil, Bool.false_eq_true]
+      simp [*, word_toDec])]) <;>
+    simp (config := {decide := true}) [RouteDesc.words, RouteDesc.expected, optWords, toksOf, routeBody, routeTail, *,
+      slotIntf, slotAddr, slotKw, slotDigits, slotKwWord, slotKwDigits, quadPrefix_toDec, takeWhile_toDec,
+      Range.toDec_ne_nil, kw_not_prefix_toDec, qp_global, qp_name, qp_permanent, qp_track, qp_tag]
+
+
+/-- **all presence masks**: the twelve case lemmas above cover every description with an
+interface, a next hop, or both -/
+theorem route_cases (d : RouteDesc) (hv : d.Valid) (h : d.intf ≠ none ∨ d.nh ≠ none) :
+    routeParse (line [] d.words) = some d.expected := by
+  obtain ⟨vrf, p, m, intf, nh, glob, ad, name, perm, track, tag⟩ := d
+  cases intf with
+  | none =>
+    cases nh with
+    | none => simp at h
+    | some hh =>
+      cases vrf <;> cases glob
+      · exact route_nh_00 [] p m [] hh ad name perm track tag hv
+      · exact route_nh_01 [] p m [] hh ad name perm track tag hv
+      · exact route_nh_10 _ p m [] hh ad name perm track tag hv
+      · exact route_nh_11 _ p m [] hh ad name perm track tag hv
+  | some i =>
+    cases nh with
+    | none =>
+      cases vrf <;> cases glob
+      · exact route_intf_00 [] p m i [] ad name perm track tag hv
+      · exact route_intf_01 [] p m i [] ad name perm track tag hv
+      · exact route_intf_10 _ p m i [] ad name perm track tag hv
+      · exact route_intf_11 _ p m i [] ad name perm track tag hv
+    | some hh =>
+      cases vrf <;> cases glob
+      · exact route_both_00 [] p m i hh ad name perm track tag hv
+      · exact route_both_01 [] p m i hh ad name perm track tag hv
+      · exact route_both_10 _ p m i hh ad name perm track tag hv
+      · exact route_both_11 _ p m i hh ad name perm track tag hv
+
+/-! ### the interface line -/
+
+theorem intfName_header (nm : List Str) (h : ∀ w ∈ nm, Word w) :
+    intfName (line [] (kInterface :: nm)) = join [' '] nm := by
+  unfold intfName wordsOf
+  rw [lex_line [] _ (by simp) (by
+    intro x hx; rcases List.mem_cons.mp hx with rfl | hx
+    · exact word_kw (by decide)
+    · exact h x hx), map_fst_toksOf]
+  rfl
+
+theorem isIntfLine_header (nm : List Str) (h : ∀ w ∈ nm, Word w) :
+    isIntfLine (line [] (kInterface :: nm)) = true := by
+  unfold isIntfLine wordsOf
+  rw [lex_line [] _ (by simp) (by
+    intro x hx; rcases List.mem_cons.mp hx with rfl | hx
+    · exact word_kw (by decide)
+    · exact h x hx), map_fst_toksOf]
+  simp
 
 end Ccp.Ios
